@@ -5,13 +5,16 @@
 EXTENDS Integers, Sequences, FiniteSets, TLC
 
 AllDefects == {"MapOrderDispatch", "FirstMatchShadowsConcrete", "ProtoOverrideDropped", "NilKeyPanics",
-               "TypeNameCollision"}
+               "TypeNameCollision", "EnvelopeCodecAmbiguity"}
+(* the defects that change the sender-side choice (the other two act on the receive side only) *)
+SenderDefects == AllDefects \ {"TypeNameCollision", "EnvelopeCodecAmbiguity"}
 
 (* ---- registration keys ---------------------------------------------------------------------- *)
 (* PM = interface proto.Message, CP = a concrete proto message type, CT = a concrete struct     *)
 (* type, IA / IB = user interfaces, CE1 / CE2 = two concrete struct types whose lower-cased     *)
-(* type names are equal, NIL = a nil message passed as the key.                                 *)
-UserKeys  == {"PM", "CP", "CT", "IA", "IB", "CE1", "CE2", "NIL"}
+(* type names are equal, CI = the built-in type int (primitives are pre-registered in the     *)
+(* types registry), NIL = a nil message passed as the key.                                      *)
+UserKeys  == {"PM", "CP", "CT", "IA", "IB", "CE1", "CE2", "CI", "NIL"}
 IfaceKeys == {"PM", "IA", "IB"}
 Concrete(k) == k \notin IfaceKeys /\ k # "NIL"
 UserSers  == {"Proto", "CBOR", "JSON", "U1", "U2"}
@@ -24,7 +27,7 @@ Internal == << [k |-> "KPoison", s |-> "Poison"], [k |-> "KTerm", s |-> "Term"],
 DefaultPM == [k |-> "PM", s |-> "Proto"]
 
 (* ---- message kinds and the static "dynamic type matches key" relation ------------------------ *)
-Kinds == {"mProto", "mCP", "mT", "mA", "mAB", "mNone", "mEvt1", "mEvt2", "mPoison", "mTerm", "mDeliv", "mNil"}
+Kinds == {"mProto", "mCP", "mT", "mA", "mAB", "mNone", "mEvt1", "mEvt2", "mInt", "mPoison", "mTerm", "mDeliv", "mNil"}
 Matches(kind) ==
   CASE kind = "mProto"  -> {"PM"}
     [] kind = "mCP"     -> {"CP", "PM"}
@@ -33,6 +36,7 @@ Matches(kind) ==
     [] kind = "mAB"     -> {"IA", "IB"}
     [] kind = "mEvt1"   -> {"CE1"}
     [] kind = "mEvt2"   -> {"CE2"}
+    [] kind = "mInt"    -> {"CI"}
     [] kind = "mPoison" -> {"KPoison"}
     [] kind = "mTerm"   -> {"KTerm"}
     [] kind = "mDeliv"  -> {"KDeliv"}
@@ -102,7 +106,7 @@ Resolve(es, kind, D) ==
 (* ---- codecs: who can encode what, and the wire format -------------------------------------------- *)
 CanEncode(s, kind, g) ==
   CASE s = "Proto"            -> kind \in ProtoKinds
-    [] s \in {"CBOR", "JSON"} -> (kind = "mT" /\ g.gT) \/ (kind \in {"mEvt1", "mEvt2"} /\ g.gE # "none")
+    [] s \in {"CBOR", "JSON"} -> (kind = "mT" /\ g.gT) \/ (kind \in {"mEvt1", "mEvt2"} /\ g.gE # "none") \/ kind = "mInt"
     [] s \in {"U1", "U2"}     -> kind \in {"mT", "mA", "mAB", "mNone", "mProto", "mCP"}
     [] s = "Poison"           -> kind = "mPoison"
     [] s = "Term"             -> kind = "mTerm"
@@ -113,8 +117,13 @@ CanEncode(s, kind, g) ==
 Frame(s, kind) == [fmt |-> s, kind |-> kind]
 
 (* ---- receiver side: serializerDispatch.Deserialize ------------------------------------------------ *)
+(* CBOR and JSON share the frame layout and the types registry; only the payload syntax tells them  *)
+(* apart.  For struct payloads the syntaxes are disjoint; for a primitive they are not (the JSON text *)
+(* "5" is the CBOR integer -22, the CBOR byte for -20 is the JSON text "3"): the other codec MAY      *)
+(* accept such a frame (EnvelopeCodecAmbiguity; in the repaired design the envelope names the codec). *)
 Accepts(s, f, g, D) ==
-  /\ s = f.fmt
+  /\ \/ s = f.fmt
+     \/ "EnvelopeCodecAmbiguity" \in D /\ f.kind = "mInt" /\ {s, f.fmt} = {"CBOR", "JSON"}
   /\ (s \in {"CBOR", "JSON"} /\ f.kind \in {"mEvt1", "mEvt2"}) => NameOwner(g, f.kind, D) # "none"
 Decode(es, f, g, D) ==
   LET acc == {i \in DOMAIN es : Accepts(es[i].s, f, g, D)}
